@@ -1260,6 +1260,7 @@ func main() {
 	o := c.NewOut("C02")
 	o.DeclareSuite("res", "From Verif Require Import C02.Model C02.Model2.", "case_res2", "run_res2h")
 	o.DeclareSuite("eng", "From Verif Require Import C02.Model C02.Model2 C02.Model3.", "case_eng3", "run_eng3h")
+	o.DeclareSuite("dec", "From Verif Require Import C02.Model4.", "case_dec", "run_dec")
 	o.Rule("res: quota forests of 1-3 concurrent quotas (max 0-3, ttl 1-3 s, up to 3 levels, an unrelated second root), " +
 		"2-5 transactions; generated interleavings, at operation granularity, of limiter chains followed by response / early answer / " +
 		"proxy error / abandon, unstructured operation sequences, and all interleavings of small programs; clock readings aimed " +
@@ -1281,6 +1282,9 @@ func main() {
 		"('unknown'), the EMPTY id 2/10 (GATEWAY_INSTANCE_ID unset), or the setenv shape / 'unknown' / '::' inside, first, last, alone / a single ':' / digits / blank / a transaction id / " +
 		"300 bytes (5/10); fixed corpus: every id x (abandoned transactions + expiry + GC pass with 1 ns edges; two-level chain; explicit ends then abandon; engine level with the real GC " +
 		"goroutine, three flow styles); the instance id is NOT part of the Coq case: the model says the same for every id. " +
+		"dec: the expiry's decimal rendering / reading — Go's fmt.Sprintf(%d) on int64 boundaries (0, +-1, every power of ten and of two with neighbours, both ends of int64) and random values, " +
+		"and strconv.ParseInt(s, 10, 64) with its error class on byte strings around the 2^63 / 2^64 cutoffs, signs, leading zeros, '_', blanks, non-ASCII bytes, overflow before / after a bad byte, " +
+		"one-byte edits of renderings — against Model4.dec10 / parse10 (these cases are no histories: never counted non-trivial). " +
 		"distinct = distinct (configuration, steps, observations); non-trivial = the history contains a refusal and a slot being given back")
 	var raw struct {
 		Gen   string `json:"generator"`
@@ -1289,7 +1293,11 @@ func main() {
 		} `json:"steps"`
 	}
 	if suite, ok := o.ReplayCase(&raw); ok {
-		if suite == "eng" {
+		if suite == "dec" {
+			var k DecCase
+			o.ReplayCase(&k)
+			replayDec(o, k)
+		} else if suite == "eng" {
 			var k EngCase
 			o.ReplayCase(&k)
 			replayEng(o, k)
@@ -1349,5 +1357,7 @@ func main() {
 		}
 		lap("stress")
 	}
+	genDec(o, r.Fork(0xdec))
+	lap("dec")
 	o.Finish()
 }
